@@ -407,14 +407,14 @@ func (a *align) RemoveCharacterSites(c []uint8, cutoff float64, ends bool, ignor
 			if reverse {
 				selected = !selected
 			}
-			if selected {
-				nbchars++
-			}
 			// If it's a gap and we ignore gaps, or if it's a N and we ignore N, then we do not count that
-			// nt/aa in the total
+			// nt/aa, neither in the total nor in the selected characters
 			if !((ignoreGaps && a.seqs[seq].sequence[site] == GAP) ||
 				(ignoreNs && (a.seqs[seq].sequence[site] == uint8(all) || a.seqs[seq].sequence[site] == uint8(allc)))) {
 				total++
+				if selected {
+					nbchars++
+				}
 			}
 		}
 		if (cutoff > 0.0 && float64(nbchars) >= cutoff*float64(total)) || (cutoff == 0 && nbchars > 0) {
